@@ -227,7 +227,10 @@ class Interp:
             ts = objs["ts:" + t]
             return self._sync(t, opid, "started", [op[1]], lambda: ts.started(op[1]))
         if k == "cancel":
-            o = objs[op[1]]
+            o = objs.get(op[1])
+            if o is None:
+                w.ev("x", t, opid, "cancel", [op[1]], ["exc", "NoSuchScopeYet"])
+                return
             o = o.cancel_scope if hasattr(o, "cancel_scope") else o
             return self._sync(t, opid, "cancel", [op[1]], o.cancel)
         if k == "set_shield":
@@ -257,6 +260,10 @@ class Interp:
         if k == "probe":
             w.ev("p", t, opid, self.probe(op[1] if len(op) > 1 else None))
             return
+        if k == "ntimeout":
+            return await self.op_ntimeout(t, op, opid)
+        if k == "ntg":
+            return await self.op_ntg(t, op, opid)
         if k == "acquire":
             return await self._blocking(t, opid, "acquire", [op[1]], objs[op[1]].acquire())
         if k == "acquire_nowait":
@@ -317,20 +324,23 @@ class Interp:
             raise ValueError(kind)
         body_out = ["ok", None]
         sc = None
+        c_in = asyncio.current_task().cancelling()
         try:
             with cm as sc:
                 w.objs[name] = sc
-                w.ev("se", t, name, shield, sc.deadline)
+                w.ev("se", t, name, shield, sc.deadline, c_in)
                 try:
                     await self.run_ops(t, body, opid)
                 except BaseException as e:
                     body_out = classify(e)
                     raise
         except BaseException as e:
-            w.ev("sx", t, name, body_out, classify(e), sc.cancelled_caught, sc.cancel_called)
+            w.ev("sx", t, name, body_out, classify(e), sc.cancelled_caught, sc.cancel_called,
+                 asyncio.current_task().cancelling())
             raise
         else:
-            w.ev("sx", t, name, body_out, ["ok", None], sc.cancelled_caught, sc.cancel_called)
+            w.ev("sx", t, name, body_out, ["ok", None], sc.cancelled_caught, sc.cancel_called,
+                 asyncio.current_task().cancelling())
 
     async def op_prescope(self, t, op, opid):
         """["prescope", name, {shield}, body]: a scope cancelled *before* it is entered."""
@@ -340,19 +350,22 @@ class Interp:
         w.objs[name] = sc
         self._sync(t, opid, "cancel", [name], sc.cancel)
         body_out = ["ok", None]
+        c_in = asyncio.current_task().cancelling()
         try:
             with sc:
-                w.ev("se", t, name, sc.shield, sc.deadline)
+                w.ev("se", t, name, sc.shield, sc.deadline, c_in)
                 try:
                     await self.run_ops(t, body, opid)
                 except BaseException as e:
                     body_out = classify(e)
                     raise
         except BaseException as e:
-            w.ev("sx", t, name, body_out, classify(e), sc.cancelled_caught, sc.cancel_called)
+            w.ev("sx", t, name, body_out, classify(e), sc.cancelled_caught, sc.cancel_called,
+                 asyncio.current_task().cancelling())
             raise
         else:
-            w.ev("sx", t, name, body_out, ["ok", None], sc.cancelled_caught, sc.cancel_called)
+            w.ev("sx", t, name, body_out, ["ok", None], sc.cancelled_caught, sc.cancel_called,
+                 asyncio.current_task().cancelling())
 
     async def op_tg(self, t, op, opid):
         w = self.w
@@ -444,6 +457,45 @@ class Interp:
             fin = o.get("finally")
             if fin:
                 await self.run_ops(t, fin, opid + "f")
+
+    async def op_ntimeout(self, t, op, opid):
+        """["ntimeout", d, body]: asyncio.timeout(d) around DSL ops."""
+        w = self.w
+        d, body = op[1], op[2]
+        t0 = w.loop.time()
+        w.ev("b", t, opid, "ntimeout", [d])
+        try:
+            async with asyncio.timeout(d):
+                await self.run_ops(t, body, opid)
+        except TimeoutError:
+            w.ev("e", t, opid, ["exc", "TimeoutError", w.loop.time() - t0])
+            if len(op) > 3 and op[3].get("swallow", True):
+                return
+            raise
+        except BaseException as e:
+            w.ev("e", t, opid, classify(e))
+            raise
+        w.ev("e", t, opid, ["ok", w.loop.time() - t0])
+
+    async def op_ntg(self, t, op, opid):
+        """["ntg", k]: an asyncio.TaskGroup with one child doing k bare yields."""
+        w = self.w
+        k = op[1] if len(op) > 1 else 1
+
+        async def child():
+            for _ in range(k):
+                await asyncio.sleep(0)
+            return 7
+
+        w.ev("b", t, opid, "ntg", [k])
+        try:
+            async with asyncio.TaskGroup() as g:
+                ct = g.create_task(child())
+                await asyncio.sleep(0)
+        except BaseException as e:
+            w.ev("e", t, opid, classify(e))
+            raise
+        w.ev("e", t, opid, ["ok", ct.result()])
 
     def probe(self, what=None):
         task = asyncio.current_task()
